@@ -47,6 +47,7 @@ def _replay_batch(args):
         try:
             import geom
             geom.VARY = random.Random(h + 7) if prop in VARY_PROPS else None
+            geom.G.set_eps()            # every case starts from the default tolerance (a leaked setting must not spread)
             res = mod.replay_case(case, tag, rng, tier)
         except Exception as e:   # noqa: BLE001 - a crash of the harness itself is a machinery failure
             import traceback
